@@ -8,6 +8,7 @@ import (
 	"testing"
 
 	"github.com/KafScale/platform/internal/verifkit"
+	metadatapb "github.com/KafScale/platform/pkg/gen/metadata"
 )
 
 type c14Obs struct {
@@ -21,6 +22,18 @@ type c14Obs struct {
 	sawWait      map[string]bool // generation key -> some join was answered REBALANCE_IN_PROGRESS (the barrier held somebody back)
 
 	barrierHeld, successMulti, syncJudged, listChecked int
+
+	// fault mode (legs 'fault' and 'faultenum', see c14_fault_test.go): store calls of the coordinator may have
+	// been failed, so the stored group record can lag behind what the coordinator holds. Second view of the
+	// group: the record the coordinator last ATTEMPTED to write (nil after an attempted delete), taken from
+	// the recording decorator.
+	faultMode         bool
+	prevAtt           gTruth           // attempted-record view after the previous event
+	resValid          bool             // an attempted delete of the group record failed and the record is still stored
+	resGen            int32            // ... generation of that record
+	faultFired        bool             // set by the runner once a store call was failed
+	successAfterFault int              // >=2-member generations completed after a store call had been failed
+	faultLog          []map[string]any // injected faults, for the witness
 }
 
 func (o *c14Obs) key(gen int32) string { return fmt.Sprintf("%d/%d", o.epoch, gen) }
@@ -30,7 +43,40 @@ func (o *c14Obs) violate(w *gWorld, ev *gEvent, class, summary string, extra map
 		return
 	}
 	o.flagged = true
+	if o.faultMode {
+		if extra == nil {
+			extra = map[string]any{}
+		}
+		extra["store_faults_injected"] = o.faultLog
+		g := ev.Gen
+		if ev.K == "sync" {
+			g = ev.ReqGen
+		}
+		if o.resValid && g == o.resGen {
+			// the group had been removed from the coordinator (last member left / everybody expired) but the
+			// delete of its record failed, and this is the generation of the record that was left behind
+			class += "_in_generation_restored_after_failed_group_delete"
+		}
+	}
 	o.r.Violation(class, summary, gWitness(w, ev.I, extra))
+}
+
+// c14TruthOfRecord renders a group record as a boundary snapshot (membership, generation, leader).
+func c14TruthOfRecord(g *metadatapb.ConsumerGroup) gTruth {
+	var tr gTruth
+	if g == nil {
+		return tr
+	}
+	tr.Exists, tr.State, tr.Gen, tr.Leader = true, g.GetState(), g.GetGenerationId(), g.GetLeader()
+	tr.Members = map[string]gTruthMember{}
+	for id, m := range g.GetMembers() {
+		tr.Members[id] = gTruthMember{Subs: append([]string(nil), m.GetSubscriptions()...)}
+	}
+	return tr
+}
+
+func c14SameGroup(a, b gTruth) bool {
+	return a.Exists == b.Exists && a.Gen == b.Gen && fmt.Sprint(a.memberIDs()) == fmt.Sprint(b.memberIDs())
 }
 
 // joinedGen: did member id's latest join reply carry generation gen? For ids whose bookkeeping was changed
@@ -51,12 +97,29 @@ func c14Joined(w *gWorld, ev *gEvent, id string, gen int32) (bool, int32) {
 }
 
 func (o *c14Obs) observe(w *gWorld, ev *gEvent) {
+	var attB, attA gTruth // fault mode: the attempted-record view before / after this event
+	if o.faultMode {
+		attB = o.prevAtt
+		attA = c14TruthOfRecord(w.rec.lastWritten(w.cfg.Group))
+		o.prevAtt = attA
+		if !ev.After.Exists {
+			o.resValid = false
+		} else if !attA.Exists {
+			if attB.Exists || !o.resValid {
+				o.r.Count("group_record_survived_a_failed_delete", 1)
+			}
+			o.resValid, o.resGen = true, ev.After.Gen
+		}
+	}
 	defer func() {
+		absent := o.faultMode && !attA.Exists // the coordinator tried to delete the record: the group ended, whether or not the delete worked
 		for _, tr := range ev.afters() { // overlapped requests: the group was absent at SOME instant during the pair
 			if !tr.Exists {
-				o.epoch++
-				break
+				absent = true
 			}
+		}
+		if absent {
+			o.epoch++
 		}
 	}()
 	tr := ev.After
@@ -71,62 +134,28 @@ func (o *c14Obs) observe(w *gWorld, ev *gEvent) {
 			return
 		}
 		k := o.key(ev.Gen)
-		// the leader named in ANY reply is a current member
-		if !tr.Exists || ev.Leader == "" || !tr.has(ev.Leader) {
-			o.violate(w, ev, "reply_names_leader_that_is_not_a_member", fmt.Sprintf("join reply (code %d, generation %d) names leader %q; current members %v", ev.Code, ev.Gen, ev.Leader, tr.memberIDs()), nil)
-			return
+		class, summary := o.judgeJoin(w, ev, tr)
+		if class != "" && o.faultMode && !c14SameGroup(tr, attA) {
+			// The stored record is not the one the coordinator wrote last (that write was failed by the
+			// harness), so there are two candidate truths; object only if neither justifies the reply. (The
+			// unchanged coordinator answers a join whose write failed with UNKNOWN_SERVER_ERROR, which is
+			// not judged at all, so this is never reached there.)
+			if c2, _ := o.judgeJoin(w, ev, attA); c2 == "" {
+				class = ""
+				o.r.Count("join_reply_justified_only_by_the_record_whose_write_failed", 1)
+			}
 		}
-		// only the leader's successful reply carries the member list
-		if ev.HasList && !(ev.Code == 0 && ev.MemberID == ev.Leader) {
-			o.violate(w, ev, "member_list_in_non_leader_or_unsuccessful_reply", fmt.Sprintf("join reply to %s (code %d, leader %s) carries %d members", ev.MemberID, ev.Code, ev.Leader, len(ev.Members)), nil)
+		if class != "" {
+			o.violate(w, ev, class, summary, nil)
 			return
 		}
 		if ev.Code == 0 && ev.MemberID == ev.Leader {
-			if !ev.HasList {
-				o.violate(w, ev, "leader_success_reply_without_member_list", fmt.Sprintf("successful join reply to leader %s has an empty member list", ev.MemberID), nil)
-				return
-			}
 			o.listChecked++
-			listed := make([]string, 0, len(ev.Members))
-			for id := range ev.Members {
-				listed = append(listed, id)
-			}
-			sort.Strings(listed)
-			if fmt.Sprint(listed) != fmt.Sprint(tr.memberIDs()) {
-				o.violate(w, ev, "leader_member_list_differs_from_membership", fmt.Sprintf("leader was told members %v, current members are %v", listed, tr.memberIDs()), nil)
-				return
-			}
-			for id, sub := range ev.Members {
-				if info := w.ids[id]; info != nil && fmt.Sprint(info.Sub) != fmt.Sprint(sub) {
-					o.violate(w, ev, "leader_member_list_wrong_subscription", fmt.Sprintf("leader was told %s subscribes %v, its latest join sent %v", id, sub, info.Sub), nil)
-					return
-				}
-			}
 		}
 		if ev.Code != 0 {
 			if ev.Code == 27 {
 				o.sawWait[k] = true
 			}
-			return
-		}
-		// success => every current member has joined THIS generation
-		if tr.Gen != ev.Gen {
-			o.violate(w, ev, "join_success_reports_generation_other_than_current", fmt.Sprintf("reply says generation %d, group record says %d", ev.Gen, tr.Gen), nil)
-			return
-		}
-		var lag []string
-		for _, id := range tr.memberIDs() {
-			info := w.ids[id]
-			if info == nil || info.LastJoinGen != ev.Gen {
-				g := int32(-1)
-				if info != nil {
-					g = info.LastJoinGen
-				}
-				lag = append(lag, fmt.Sprintf("%s(last joined generation %d)", id, g))
-			}
-		}
-		if len(lag) > 0 {
-			o.violate(w, ev, "join_success_before_all_members_rejoined", fmt.Sprintf("join of %s answered 0 in generation %d although %v have not joined it", ev.MemberID, ev.Gen, lag), nil)
 			return
 		}
 		if !o.completed[k] {
@@ -135,6 +164,9 @@ func (o *c14Obs) observe(w *gWorld, ev *gEvent) {
 				o.successMulti++
 				if o.sawWait[k] {
 					o.barrierHeld++
+				}
+				if o.faultFired {
+					o.successAfterFault++
 				}
 			}
 		}
@@ -148,6 +180,13 @@ func (o *c14Obs) observe(w *gWorld, ev *gEvent) {
 		current := bf.Exists && bf.Gen == ev.ReqGen && bf.has(ev.ReqID) && tr.Exists && tr.Gen == ev.ReqGen
 		if ev.overlapped() { // current in EVERY snapshot taken while the pair was in flight
 			for _, c := range ev.Cands {
+				if !(c.Exists && c.Gen == ev.ReqGen && c.has(ev.ReqID)) {
+					current = false
+				}
+			}
+		}
+		if o.faultMode { // ... and in the record the coordinator last attempted to write, before and after
+			for _, c := range []gTruth{attB, attA} {
 				if !(c.Exists && c.Gen == ev.ReqGen && c.has(ev.ReqID)) {
 					current = false
 				}
@@ -168,6 +207,60 @@ func (o *c14Obs) observe(w *gWorld, ev *gEvent) {
 			o.leaderSynced[k] = true
 		}
 	}
+}
+
+// judgeJoin applies the join-reply rules to a non-overlapped reply (code >= 0) against boundary snapshot tr
+// and returns the class and summary of the first rule broken ("" = none).
+func (o *c14Obs) judgeJoin(w *gWorld, ev *gEvent, tr gTruth) (string, string) {
+	// the leader named in ANY reply is a current member
+	if !tr.Exists || ev.Leader == "" || !tr.has(ev.Leader) {
+		return "reply_names_leader_that_is_not_a_member", fmt.Sprintf("join reply (code %d, generation %d) names leader %q; current members %v", ev.Code, ev.Gen, ev.Leader, tr.memberIDs())
+	}
+	// only the leader's successful reply carries the member list
+	if ev.HasList && !(ev.Code == 0 && ev.MemberID == ev.Leader) {
+		return "member_list_in_non_leader_or_unsuccessful_reply", fmt.Sprintf("join reply to %s (code %d, leader %s) carries %d members", ev.MemberID, ev.Code, ev.Leader, len(ev.Members))
+	}
+	if ev.Code == 0 && ev.MemberID == ev.Leader {
+		if !ev.HasList {
+			return "leader_success_reply_without_member_list", fmt.Sprintf("successful join reply to leader %s has an empty member list", ev.MemberID)
+		}
+		listed := make([]string, 0, len(ev.Members))
+		for id := range ev.Members {
+			listed = append(listed, id)
+		}
+		sort.Strings(listed)
+		if fmt.Sprint(listed) != fmt.Sprint(tr.memberIDs()) {
+			return "leader_member_list_differs_from_membership", fmt.Sprintf("leader was told members %v, current members are %v", listed, tr.memberIDs())
+		}
+		for _, id := range listed {
+			sub := ev.Members[id]
+			if info := w.ids[id]; info != nil && fmt.Sprint(info.Sub) != fmt.Sprint(sub) {
+				return "leader_member_list_wrong_subscription", fmt.Sprintf("leader was told %s subscribes %v, its latest join sent %v", id, sub, info.Sub)
+			}
+		}
+	}
+	if ev.Code != 0 {
+		return "", ""
+	}
+	// success => every current member has joined THIS generation
+	if tr.Gen != ev.Gen {
+		return "join_success_reports_generation_other_than_current", fmt.Sprintf("reply says generation %d, group record says %d", ev.Gen, tr.Gen)
+	}
+	var lag []string
+	for _, id := range tr.memberIDs() {
+		info := w.ids[id]
+		if info == nil || info.LastJoinGen != ev.Gen {
+			g := int32(-1)
+			if info != nil {
+				g = info.LastJoinGen
+			}
+			lag = append(lag, fmt.Sprintf("%s(last joined generation %d)", id, g))
+		}
+	}
+	if len(lag) > 0 {
+		return "join_success_before_all_members_rejoined", fmt.Sprintf("join of %s answered 0 in generation %d although %v have not joined it", ev.MemberID, ev.Gen, lag)
+	}
+	return "", ""
 }
 
 // observeOverlappedJoin judges the reply of a join that was in flight together with another request. The
